@@ -441,7 +441,20 @@ class Gen:
         if self.strs:
             c.append(lambda: {'k': 'len', 'name': r.choice(self.strs)['name']})
             if 'idx' in self.f:
-                c.append(lambda: {'k': 'idx', 'name': r.choice(self.strs)['name'], 'i': {'k': 'num', 'v': r.randint(0, 4)}})
+                def mkidx():
+                    sv = r.choice(self.strs)
+                    size = sv.get('size') or {'uint16_t': 2, 'uint32_t': 4, 'uint64_t': 8}.get(sv.get('raw'), 1)
+                    hi = size - 1 if 'idx_inrange' in self.f else 4
+                    if 'idx_inrange' not in self.f and r.random() < 0.5:
+                        # computed indices: last character, offset from $last, a variable
+                        ch = [{'k': 'bin', 'op': '-', 'l': {'k': 'len', 'name': sv['name']}, 'r': {'k': 'num', 'v': 1}}]
+                        if allow_last:
+                            ch.append({'k': 'bin', 'op': '-', 'l': {'k': 'last'}, 'r': {'k': 'chr', 'c': r.choice(self.alpha)}})
+                        if self.ints:
+                            ch.append({'k': 'var', 'name': r.choice(self.ints)['name']})
+                        return {'k': 'idx', 'name': sv['name'], 'i': r.choice(ch)}
+                    return {'k': 'idx', 'name': sv['name'], 'i': {'k': 'num', 'v': r.randint(0, max(0, hi))}}
+                c.append(mkidx)
         if allow_last:
             c.append(lambda: {'k': 'last'})
             c.append(lambda: {'k': 'last'})
@@ -722,6 +735,27 @@ def gen_cond_program(seed):
             {'t': 'match', 'm': {'k': 'str', 'bytes': [120]}},
             {'t': 'if', 'br': [{'c': c2, 'b': [{'t': 'match', 'm': {'k': 'str', 'bytes': [121]}}]}], 'els': [{'t': 'match', 'm': {'k': 'str', 'bytes': [122]}}]},
             {'t': 'match', 'm': {'k': 'str', 'bytes': [119]}}]
+    p = {'outs': outs, 'hooks': [], 'fcodes': [], 'ycodes': [], 'macros': [], 'body': body, 'args': []}
+    return p, spell_program(p)
+
+
+def gen_boundary_program(seed):
+    """capacity-boundary programs (C03): string sizes at the edges of the counter types, filled by a loop"""
+    r = random.Random(seed)
+    size = r.choice([1, 2, 3, 255, 256, 257])
+    term = r.random() < 0.5
+    if size == 1 and term:
+        size = 2
+    outs = [{'name': 's0', 'type': 'str', 'size': size, 'term': term, 'default': None},
+            {'name': 'n0', 'type': 'int', 'signed': None, 'width': None, 'default': 0}]
+    fill = {'t': 'append', 'var': 's0', 'm': {'k': 're', 'r': {'k': 'plus', 'c': {'k': 'set', 'inv': False, 'items': [['ch', 97], ['ch', 98]]}}, 'bin': False}}
+    tail = r.choice([
+        [{'t': 'appendc', 'var': 's0', 'e': {'k': 'num', 'v': 99}}, {'t': 'match', 'm': {'k': 'str', 'bytes': [120]}}],
+        [{'t': 'set', 'var': 'n0', 'e': {'k': 'idx', 'name': 's0', 'i': {'k': 'bin', 'op': '-', 'l': {'k': 'len', 'name': 's0'}, 'r': {'k': 'num', 'v': 1}}}}, {'t': 'match', 'm': {'k': 'str', 'bytes': [120]}}],
+        [{'t': 'match', 'm': {'k': 'str', 'bytes': [120]}}]])
+    body = [{'t': 'loop', 'name': None, 'b': [
+        {'t': 'try', 'b': [fill, {'t': 'match', 'm': {'k': 'str', 'bytes': [59]}}] + tail, 'handles': ['outofspace'],
+         'h': [{'t': 'set', 'var': 'n0', 'e': {'k': 'len', 'name': 's0'}}, {'t': 'wait', 'm': {'k': 'str', 'bytes': [33]}}, {'t': 'delete', 'var': 's0'}]}]}]
     p = {'outs': outs, 'hooks': [], 'fcodes': [], 'ycodes': [], 'macros': [], 'body': body, 'args': []}
     return p, spell_program(p)
 
